@@ -153,6 +153,69 @@ def gen_echo(rng, n, routes, params):
     return ops
 
 
+OIDC_PATH = "/idp/oauth2/authorize"
+RESPONSE_MODES = ["", "query", "fragment", "form_post", "web_message", "form_post.jwt"]  # OAuth 2.0 / OIDC registry
+
+
+def oidc_authorize(redirect_path, state, nonce, extra, cookie="full", method="GET", accept="text/html"):
+    """a successful authorization request of a client registered by domain: the redirect_uri path,
+    state and nonce are client-chosen; `extra` = further request parameters (response_mode, …)"""
+    from urllib.parse import quote
+    pairs = [("response_type", "code"), ("client_id", "vfclient"), ("scope", "openid"),
+             ("redirect_uri", "https://app.example.com/" + redirect_path), ("state", state), ("nonce", nonce)] + list(extra)
+    q = "&".join("%s=%s" % (k, quote(v, safe="")) for k, v in pairs)
+    if method == "GET":
+        return op("req", "GET", OIDC_PATH, q, "", accept, cookie)
+    return op("req", "POST", OIDC_PATH, "", q, accept, cookie)
+
+
+def oidc_corpus():
+    ops = []
+    for rm in RESPONSE_MODES:
+        extra = [("response_mode", rm)] if rm else []
+        ops.append(oidc_authorize('cb"><%s x=1>' % CAN, '"><%s>' % CAN, 'nonce"><%s>' % CAN, extra))
+        ops.append(oidc_authorize('cb" on%s="1' % CAN, "s", "nonce-123456", extra, method="POST"))
+    ops.append(oidc_authorize("cb'><%s>" % CAN, "</title><%s>" % CAN, "", []))
+    ops.append(oidc_authorize("cb/<%s>/x" % CAN, "s", "n-123456", [("prompt", '"><%s>' % CAN), ("display", "page")]))
+    return ops
+
+
+def u2f_corpus():
+    """software U2F tokens whose (client-chosen) attestation certificate names hostile subjects/issuers"""
+    img = '"><img src=x on%s=1>' % CAN
+    return [op("u2freg", "", "verif soft token", "", ""), op("u2freg", "", "<%s>" % CAN, "", "n<%s>" % CAN),
+            op("u2freg", "", "serial 1234", 'CA "><%s>' % CAN, ""), op("u2freg", "", '"><%s>' % CAN, "CA <%s x=1>" % CAN, ""),
+            op("u2freg", "", "tok", "CA " + img, ""), op("u2freg", "", img, "</td><%s>" % CAN, "' %sattr=1 x='" % CAN),
+            op("u2freg", "u-%s.1" % CAN, "&lt;%s&gt;" % CAN, "\\\"><%s>" % CAN, "")]
+
+
+def gen_round3(rng, n, param_values):
+    """OIDC authorizations (every response mode and every request option the code compares a
+    parameter with) and U2F enrolments with hostile certificate names"""
+    ops = []
+    opts = sorted((k, v) for k, vs in (param_values or {}).items() for v in vs
+                  if k not in ("response_type", "client_id", "scope", "redirect_uri", "state", "nonce", "grant_type"))
+    for i in range(n):
+        p = rand_payload(rng)[-300:]
+        if i % 3 != 2:
+            extra = []
+            if rng.random() < 0.8:
+                extra.append(("response_mode", rng.choice(RESPONSE_MODES[1:])))
+            for _ in range(rng.choice([0, 0, 1, 2])):
+                if opts:
+                    extra.append(rng.choice(opts))
+            if rng.random() < 0.2:
+                extra.append((rng.choice(["prompt", "display", "ui_locales", "login_hint", "code_challenge", "audience"]), p))
+            path = rng.choice(["cb" + p, p, "cb/" + p + "/x", "cb"]).replace("..", ".").replace("?", "").replace("#", "").replace("%", "")
+            ops.append(oidc_authorize(path, rng.choice([p, "s", rand_payload(rng)[-200:]]), rng.choice(["", "n-123456", "n-1234" + p]),
+                                      extra, cookie=rng.choice(["full", "full", "admin", "pw"]), method=rng.choice(["GET", "GET", "POST"]),
+                                      accept=rng.choice(ACCEPTS)))
+        else:
+            q = rand_payload(rng)[-60:]  # X.509 common names are limited to 64 characters
+            ops.append(op("u2freg", "", rng.choice([p[-60:], "serial 42"]), rng.choice([q, "", "CA " + q[-50:]]), rng.choice(["", p])))
+    return ops
+
+
 def corpus():
     """fixed ops, run first on every tier: the known failing input through every page that carries
     the field, then one op of every kind"""
@@ -284,7 +347,9 @@ def run(ctx):
     routes = sorted(set(r["path"] for r in facts.get("routes", []) if r.get("mux") == "service" and " " not in r["path"]))
     params = facts.get("c18_form_params", [])
     n_echo = 160 if ctx.quick() else 3000
-    ops = corpus() + echo_corpus() + gen_ops(ctx.rng, n_pages, n_pure) + gen_echo(ctx.rng, n_echo, routes, params)
+    n_r3 = 90 if ctx.quick() else 1500
+    ops = corpus() + echo_corpus() + oidc_corpus() + u2f_corpus() + gen_ops(ctx.rng, n_pages, n_pure) + \
+        gen_echo(ctx.rng, n_echo, routes, params) + gen_round3(ctx.rng, n_r3, facts.get("c18_form_param_values"))
     if ctx.replay:
         rp = json.load(open(ctx.replay))
         ops = [v["replay"]["op"] for v in rp.get("violations", []) if "op" in v.get("replay", {})] or corpus()
